@@ -496,6 +496,24 @@ class _Inliner:
                 return None
         elif isinstance(st, ast.While) and not st.orelse:
             # `while <test with helper call>: body`  ->  `while True: <inlined>; if not <test'>: break; body`
+            if isinstance(st.test, ast.BoolOp) and isinstance(st.test.op, ast.And):
+                # `while a and helper(..) and c: body`  ->  `while True: if not a: break; <inlined>; if not <result>: break; ..`
+                # (the conjuncts are evaluated in order and the first false one ends the loop - which is what the breaks do)
+                head, any_inlined = [], False
+                for v in st.test.values:
+                    brk = ast.If(test=ast.UnaryOp(op=ast.Not(), operand=v), body=[ast.Break(lineno=st.lineno, col_offset=0)], orelse=[], lineno=st.lineno, col_offset=0)
+                    rep = self._try_stmt(brk, owner_cls)
+                    if rep is None:
+                        head.append(brk)
+                    else:
+                        head.extend(rep)
+                        any_inlined = True
+                if not any_inlined:
+                    return None
+                st.test = ast.Constant(value=True)
+                st.body = head + st.body
+                ast.fix_missing_locations(st)
+                return [st]
             probe = copy.copy(st)
             rep = self._try_stmt(ast.If(test=st.test, body=[ast.Pass()], orelse=[], lineno=st.lineno, col_offset=st.col_offset), owner_cls)
             if rep is None or len(rep) != 2:
@@ -557,6 +575,23 @@ class _Inliner:
                 if isinstance(y, ast.Name) and y.id == retvar:
                     y.id = x
             return [block]
+        # `(x := helper(..))` with no other mention of x in the expression: the helper's returns assign x themselves and the
+        # expression reads x (same reason as above; x is not read before the call, so the earlier assignment is not seen)
+        walrus = next((w for w in ast.walk(root) if isinstance(w, ast.NamedExpr) and w.value is node and isinstance(w.target, ast.Name)), None)
+        if walrus is not None and sum(1 for y in ast.walk(root) if isinstance(y, ast.Name) and y.id == walrus.target.id) == 1:
+            x = walrus.target.id
+            for y in ast.walk(block):
+                if isinstance(y, ast.Name) and y.id == retvar:
+                    y.id = x
+
+            class _Swap(ast.NodeTransformer):
+                def visit_NamedExpr(self, n):
+                    if n is walrus:
+                        return ast.copy_location(ast.Name(id=x, ctx=ast.Load()), n)
+                    return self.generic_visit(n)
+
+            setattr(holder, field, _Swap().visit(root))
+            return [block, st]
         setter(ast.copy_location(ast.Name(id=retvar, ctx=ast.Load()), node))
         return [block, st]
 
